@@ -441,6 +441,10 @@ func (s *ReceiveStream) handleResetStreamFrame(frame *wire.ResetStreamFrame, now
 	s.mutex.Unlock()
 
 	if completed {
+		// Return the flow control credit for the bytes that will never be read
+		// (e.g. when CancelRead was called before the final size was known).
+		// Calling Abandon multiple times is a no-op.
+		s.flowController.Abandon()
 		s.sender.onStreamCompleted(s.streamID)
 	}
 	return err
